@@ -186,6 +186,13 @@ def make_cfg(seed, i, control=False):
                 up["restarts.hard.use_old_rk"] = False
         cfg["args"]["rhoend"] = float((cfg["args"].get("rhobeg") or 0.1) * 10.0 ** rng.uniform(-3, -1))
         cfg["args"]["maxfun"] = 80
+        g2 = np.random.default_rng([int(seed), NUM, int(i), 9])
+        if g2.random() < 0.5:
+            # parameters of options that are OFF (documented no-ops): a larger restarts.max_npt without restarts.increase_npt, amounts
+            # for it - none of them may switch the random point generation of that option on
+            up["restarts.max_npt"] = int((cfg["args"].get("npt") or n + 1) + g2.integers(1, n + 3))
+            if g2.random() < 0.5:
+                up["restarts.increase_npt_amt"] = int(g2.integers(1, 4))
     if fam == "averaged":
         cfg["nsamples"] = dict(kind=gen.pick(rng, ["const", "iter"]), v=2)
     if fam == "control":
